@@ -50,7 +50,14 @@ func q(x string) string { return "|" + mangle(x) + "|" }
 func isTime(t types.Type) bool {
 	if n, ok := t.(*types.Named); ok {
 		o := n.Obj()
-		return o.Pkg() != nil && o.Pkg().Path() == "time" && o.Name() == "Time"
+		if o.Pkg() != nil && o.Pkg().Path() == "time" && o.Name() == "Time" {
+			return true
+		}
+	}
+	// named types defined as time.Time (type RelaxedTime time.Time) share its representation
+	if st, ok := t.Underlying().(*types.Struct); ok && st.NumFields() == 3 &&
+		st.Field(0).Name() == "wall" && st.Field(1).Name() == "ext" && st.Field(2).Name() == "loc" {
+		return true
 	}
 	return false
 }
